@@ -287,7 +287,7 @@ class ClientSession:
             # use_queue: no callback; the application consumes with read_message() (see drain_queue)
             self.fut = websocket.websocket_connect(
                 "ws://example.com/ws", compression_options=compression_options,
-                on_message_callback=None if use_queue else (lambda m: rec["messages"].append(m)), **(connect_kwargs or {}))
+                on_message_callback=None if use_queue else self._on_message, **(connect_kwargs or {}))
             world.pump()
             self.sock = sockbox["sock"]
             req = bytes(self.sock.sent)
@@ -323,6 +323,13 @@ class ClientSession:
         if self.conn is not None:
             # record the close notification: read_message() returns None once
             self._closed_seen = []
+
+    def _on_message(self, m):
+        self.rec["messages"].append(m)
+        if m is None:
+            # what the application sees when it is told about the close
+            c = self.fut.result() if self.fut.done() and not self.fut.cancelled() and self.fut.exception() is None else None
+            self.rec["closes"].append((getattr(c, "close_code", "no-connection"), getattr(c, "close_reason", None)))
 
     def restore(self):
         import tornado.tcpclient
